@@ -6,6 +6,7 @@ import (
 	"math/rand"
 	"os"
 	"path/filepath"
+	"strings"
 	"sync"
 
 	"github.com/multiversx/mx-chain-storage-go/sharded"
@@ -21,7 +22,13 @@ import (
 // Get, Has and RangeKeys. Validation beyond the property's quantifier, not proof.
 func (comp) Extra(prop string, tier string, seed int64, scratch string) *core.ExtraResult {
 	res := &core.ExtraResult{Counts: map[string]int{}}
+	if prop == "C19" {
+		failedShardOpen(res, prop, scratch)
+		res.Rule = "a sharded persister (4 shards over SerialDB) holding data is closed; a second constructor call on the same path FAILS because the creator cannot open one shard; the handles it did open are closed; a third constructor call then finds every key (Get, Has, RangeKeys)"
+		return res
+	}
 	if prop == "C08" || prop == "C11" {
+		closedHandleReuse(res, prop, scratch)
 		// C08 at scale only (the concurrent / reused-buffer rounds below are about C09's clause)
 		scalePersist(res, prop, tier, scratch)
 		res.Rule = "scale rounds (monitor only): 20 000 distinct keys pending in ONE batch (MaxBatchSize 50 000) of leveldb.DB and leveldb.SerialDB; every Put is read back at once by Get and Has, and a sample again with all of them pending"
@@ -31,7 +38,9 @@ func (comp) Extra(prop string, tier string, seed int64, scratch string) *core.Ex
 	// the refusal takes the constructor's retries, about 11 s)
 	second := make(chan []core.Fail, 2)
 	for kind := 0; kind < 2; kind++ {
-		go func(kind int) { second <- refusedSecondOpen(kind, filepath.Join(scratch, fmt.Sprintf("c09-second-open-%d", kind))) }(kind)
+		go func(kind int) {
+			second <- refusedSecondOpen(kind, filepath.Join(scratch, fmt.Sprintf("c09-second-open-%d", kind)))
+		}(kind)
 	}
 	defer func() {
 		for kind := 0; kind < 2; kind++ {
@@ -143,6 +152,7 @@ func (comp) Extra(prop string, tier string, seed int64, scratch string) *core.Ex
 		res.Counts[fmt.Sprintf("rounds_kind_%d", kind)]++
 	}
 	reusedValueBuffer(res, tier, seed, scratch)
+	failedShardOpen(res, prop, scratch)
 	scalePersist(res, prop, tier, scratch)
 	res.Rule = "validation beyond the property's (sequential) quantifier: rounds of 2-6 goroutines writing their own keys (Put/Remove) through one persister with MaxBatchSize in {1,2,3,5}, so that " +
 		"size-triggered flushes overlap; then Close, a fresh persister on the same path; Get/Has of every key and RangeKeys must give exactly the last acknowledged write of every key. " +
@@ -462,4 +472,147 @@ func refusedSecondOpen(kind int, dir string) (fails []core.Fail) {
 		fail("after Close and reopen RangeKeys visits %d keys, the acknowledged map has %d", seen, len(want))
 	}
 	return
+}
+
+// ---- two handles
+
+// flakyCreator opens SerialDB shards, remembers what it handed out, and fails once for the shard directory with the given suffix
+type flakyCreator struct {
+	failSuffix string
+	handed     []types.Persister
+}
+
+func (c *flakyCreator) CreateBasePersister(path string) (types.Persister, error) {
+	if c.failSuffix != "" && strings.HasSuffix(path, c.failSuffix) {
+		c.failSuffix = ""
+		return nil, fmt.Errorf("injected: cannot open %s", path)
+	}
+	p, err := openBase(1, path, noTimerDelay, 3)
+	if err == nil {
+		c.handed = append(c.handed, p)
+	}
+	return p, err
+}
+func (c *flakyCreator) IsInterfaceNil() bool { return c == nil }
+
+// failedShardOpen: see Extra (prop C19). A constructor call that fails half-way must leave the data of the shards it did open alone.
+func failedShardOpen(res *core.ExtraResult, prop string, scratch string) {
+	fail := func(format string, a ...interface{}) {
+		res.Fails = append(res.Fails, core.Fail{Property: prop, Step: -1, Msg: "failed open of one shard: " + fmt.Sprintf(format, a...)})
+		res.Replays = append(res.Replays, "harness extra -component persist -prop "+prop+"   # failed open of one shard of an existing sharded persister")
+	}
+	defer func() {
+		if r := recover(); r != nil {
+			fail("panic: %v", r)
+		}
+	}()
+	dir := filepath.Join(scratch, "failed-shard-open")
+	_ = os.RemoveAll(dir)
+	defer os.RemoveAll(dir)
+	sp, err := sharded.NewShardIDProvider(4)
+	if err != nil {
+		fail("provider: %v", err)
+		return
+	}
+	p1, err := sharded.NewShardedPersister(dir, &flakyCreator{}, sp)
+	if err != nil {
+		fail("first open: %v", err)
+		return
+	}
+	want := map[string][]byte{}
+	for i := 0; i < 40; i++ {
+		k, v := []byte(fmt.Sprintf("key-%02d-%c", i, byte(i*7))), []byte(fmt.Sprintf("value-%d", i))
+		if p1.Put(k, v) == nil {
+			want[string(k)] = v
+		}
+	}
+	if err := p1.Close(); err != nil {
+		fail("Close: %v", err)
+		return
+	}
+	flaky := &flakyCreator{failSuffix: "/2"}
+	if p2, err2 := sharded.NewShardedPersister(dir, flaky, sp); err2 == nil {
+		_ = p2.Close() // not refused: nothing to see
+	}
+	for _, h := range flaky.handed {
+		_ = h.Close() // the constructor does not close what it opened before the failure; the caller's creator does
+	}
+	p3, err := sharded.NewShardedPersister(dir, &flakyCreator{}, sp)
+	if err != nil {
+		fail("third open: %v", err)
+		return
+	}
+	defer p3.Close()
+	res.Evaluations++
+	res.Counts["failed_shard_open_rounds"]++
+	for k, v := range want {
+		if got, gerr := p3.Get([]byte(k)); gerr != nil || !bytes.Equal(got, v) || p3.Has([]byte(k)) != nil {
+			fail("after a constructor call that failed at shard 2, Get(%q) = (%q, %v): the acknowledged value %q of a closed persister is gone", k, got, gerr, v)
+			return
+		}
+	}
+	n := 0
+	p3.RangeKeys(func(k, v []byte) bool { n++; return true })
+	if n != len(want) {
+		fail("RangeKeys visits %d keys, the closed persister held %d", n, len(want))
+	}
+}
+
+// closedHandleReuse: a CLOSED DB handle that is used again (Destroy on a closed database is part of the interface; late Put / Remove
+// return without effect on anything else) while another persister, created later in another directory, has writes pending
+func closedHandleReuse(res *core.ExtraResult, prop string, scratch string) {
+	fail := func(format string, a ...interface{}) {
+		res.Fails = append(res.Fails, core.Fail{Property: prop, Step: -1, Msg: "late use of a closed handle: " + fmt.Sprintf(format, a...)})
+		res.Replays = append(res.Replays, "harness extra -component persist -prop "+prop+"   # a closed persister used again while another one has writes pending")
+	}
+	defer func() {
+		if r := recover(); r != nil {
+			fail("panic: %v", r)
+		}
+	}()
+	for kind := 0; kind < 2; kind++ {
+		name := []string{"leveldb.DB", "leveldb.SerialDB"}[kind]
+		d1, d2 := filepath.Join(scratch, fmt.Sprintf("closed-handle-a-%d", kind)), filepath.Join(scratch, fmt.Sprintf("closed-handle-b-%d", kind))
+		_ = os.RemoveAll(d1)
+		_ = os.RemoveAll(d2)
+		p1, err := openForExtra(kind, d1, 50)
+		if err != nil {
+			fail("%s: open: %v", name, err)
+			return
+		}
+		_ = p1.Put([]byte("old"), []byte("x"))
+		_ = p1.Close()
+		p2, err := openForExtra(kind, d2, 50)
+		if err != nil {
+			fail("%s: second open: %v", name, err)
+			return
+		}
+		_ = p2.Put([]byte("mine"), []byte("v1"))
+		_ = p1.DestroyClosed()
+		res.Evaluations++
+		if v, gerr := p2.Get([]byte("mine")); gerr != nil || string(v) != "v1" {
+			fail("%s: after DestroyClosed() of ANOTHER, closed persister, Get of a pending key = (%q, %v)", name, v, gerr)
+		}
+		_ = p1.Put([]byte("stray"), []byte("z"))
+		_ = p1.Remove([]byte("mine"))
+		if v, gerr := p2.Get([]byte("stray")); gerr == nil {
+			fail("%s: a key put through ANOTHER, closed persister is returned (%q)", name, v)
+		}
+		if v, gerr := p2.Get([]byte("mine")); gerr != nil || string(v) != "v1" {
+			fail("%s: after a Remove through ANOTHER, closed persister, Get of a pending key = (%q, %v)", name, v, gerr)
+		}
+		_ = p2.Close()
+		if q, err := openForExtra(kind, d2, 50); err == nil {
+			if v, gerr := q.Get([]byte("mine")); gerr != nil || string(v) != "v1" {
+				fail("%s: after Close and reopen Get(mine) = (%q, %v)", name, v, gerr)
+			}
+			if _, gerr := q.Get([]byte("stray")); gerr == nil {
+				fail("%s: after Close and reopen the stray key of the other persister is stored", name)
+			}
+			_ = q.Close()
+		}
+		_ = os.RemoveAll(d1)
+		_ = os.RemoveAll(d2)
+		res.Counts["closed_handle_rounds"]++
+	}
 }
